@@ -2639,13 +2639,13 @@ impl LuaGenerator for TokenBasedLuaGenerator<'_> {
     }
 
     fn write_variadic_type_pack(&mut self, variadic_type_pack: &VariadicTypePack) {
-        self.push_str("...");
+        self.write_symbol("...");
         self.write_type(variadic_type_pack.get_type());
     }
 
     fn write_generic_type_pack(&mut self, generic_type_pack: &GenericTypePack) {
         self.write_identifier(generic_type_pack.get_name());
-        self.push_str("...");
+        self.write_symbol_without_space_check("...");
     }
 }
 
